@@ -82,6 +82,7 @@ impl SettingId {
     }
 
     #[inline(always)]
+    #[cfg_attr(kani, kani::ensures(|r: &bool| *r == crate::verif_kani::spec::setting::is_reserved(id.into_inner())))]
     const fn is_reserved(id: VarInt) -> bool {
         matches!(id.into_inner(), 0x0 | 0x2 | 0x3 | 0x4 | 0x5)
     }
@@ -235,6 +236,11 @@ impl SettingsBuilder {
         self.0
     }
 }
+
+/// Verification harnesses with access to this module's private items (only under `cargo kani`).
+#[cfg(kani)]
+#[path = "/verif/kani/proto/in_settings.rs"]
+pub(crate) mod verif_kani;
 
 mod setting_ids {
     use crate::varint::VarInt;
